@@ -499,9 +499,11 @@ type Stream struct {
 // queueSends() schedules the packets to be sent ensuring coordination with the mutex
 func (s *Stream) queueSends(packets []*Packet, sendStart time.Time, metrics *lib.Metrics) bool {
 	defer lib.TimeTrack(s.logger, time.Now(), time.Second)
+	verifYield("queueSends.enter", s.topic)
 	s.mu.Lock()
 	defer s.mu.Unlock()
 	for _, packet := range packets {
+		verifYield("queueSends.packet", s.topic)
 		ok := s.queueSend(packet, sendStart, metrics)
 		if !ok {
 			return false
